@@ -30,7 +30,7 @@ import (
 //   level q  FCGIClient.Request: step i.n = Request of client i if it has not been made yet (the header
 //            block is read through Request's bufio.Reader), otherwise one resp.Body.Read(p), len(p) = n
 // After the schedule every client is read to its end, in order, with a buffer of `drain` bytes.  A
-// reader that has reported an error is not read again.
+// reader that has reported an error is not read again (level q: its body is closed at that point).
 
 // c13Lockstep runs f on the calling goroutine with one P, no GC in between and emptied pools.
 func c13Lockstep(f func()) {
@@ -184,6 +184,9 @@ func c13OverlapEval(f []string) (string, []string) {
 					return
 				}
 				k.readOnce(k.resp.Body, p[:n])
+				if k.fin != "" {
+					k.resp.Body.Close() // what every caller does once the body is read
+				}
 			}
 			for _, s := range sched {
 				if s.who < 0 || s.who >= len(cl) || s.n < 1 || cl[s.who].done() {
@@ -297,7 +300,7 @@ func c13OverlapGen(g *hx.Gen) {
 	// 2. the reader itself: 2–3 clients, random conforming framings with stderr, random schedules
 	n := 120
 	if g.Thorough() {
-		n = 6000
+		n = 3000
 	}
 	for i := 0; i < n; i++ {
 		k := 2 + r.Intn(2)
@@ -363,7 +366,7 @@ func c13OverlapGen(g *hx.Gen) {
 	// 5. Request: small random responses and framings, random schedules
 	m := 60
 	if g.Thorough() {
-		m = 3000
+		m = 1500
 	}
 	for i := 0; i < m; i++ {
 		k := 2 + r.Intn(2)
